@@ -1022,7 +1022,13 @@ package ircserver
 //@   assert@call append#3 : sess-b-mcomplete: modesComplete(callarg1[0], session)
 //@   assert@call append#3 : setw-b: setsSound(callarg1[0], session)
 //@   assert@call append#3 : setwc-b: setsComplete(callarg1[0], session)
-// the witness for the current session in the completeness invariant: the last element of the extended list
+// the witnesses of the "every key has an element" invariants: the last element of each extended list
+//@   assert@after append#0 : setwc-local-w0: len(callres) >= 1 && callres[len(callres) - 1] == channel
+//@   assert@after append#1 : setwc-local-w1: len(callres) >= 1 && callres[len(callres) - 1] == channel
+//@   assert@after append#2 : sess-modes2-w: len(callres) >= 1 && len(callres[len(callres) - 1]) > 0 && callres[len(callres) - 1][0] == mode
+//@   assert@after append#4 : chanw-member2-w: len(callres) >= 1 && len(callres[len(callres) - 1]) > 0 && callres[len(callres) - 1][0] == mode
+//@   assert@after append#5 : chanw-modes2-w: len(callres) >= 1 && len(callres[len(callres) - 1]) > 0 && callres[len(callres) - 1][0] == mode
+//@   assert@after append#6 : chanwc-w: len(callres) >= 1 && chanKey(callres[len(callres) - 1]) == ChanToLower(channel.name)
 //@   assert@after append#3 : sess-appended: len(callres) >= 1 && snapId(callres[len(callres) - 1]) == id
 //@   loop range i.sessions
 //@     invariant sess-shape: forall k int :: 0 <= k && k < len(sessions) ==> sessShapeOK(sessions[k])
